@@ -35,6 +35,13 @@ var (
 // drawScalar draws a private scalar in [1, n-1] as a fixed-width big-endian string: drawn bytes
 // reduced mod (n-1) plus 1.  About 10% of the scalars have their leading byte(s) zero.
 func drawScalar(t *rapid.T, label string, c curveSpec) []byte {
+	// Scalars whose public point has a coordinate starting with a byte that encoders and parsers
+	// treat specially (0x00 leading zero, 0x02 / 0x03 / 0x04 SEC1 format markers, 0x7f / 0x80 sign
+	// boundary, 0x01, 0xff): the smallest such scalars, found by search (added after seeded change
+	// C12e, where a coordinate starting with 0x04 was mangled; a random key has it once in 256).
+	if sc, ok := gen.SpecialECScalar(t, label, c.size, 8); ok {
+		return sc
+	}
 	raw := gen.BytesN(t, label, c.size)
 	if rapid.IntRange(0, 9).Draw(t, label+"_lead0") == 0 {
 		z := rapid.IntRange(1, 3).Draw(t, label+"_lead0_n")
